@@ -11,7 +11,7 @@ import types
 import z3
 
 from . import extract, seqops
-from .contract import Const, Elem, Facade, FixedList, Link, OpaqueField, RegionList, Loop, MapOf, Obj, OneOf, Optional, Region, Root, Same, SeqOf, Spec, SymDict, _Scalar
+from .contract import Const, Elem, ElemList, Facade, FixedList, Link, OpaqueField, RegionList, Loop, MapOf, Obj, OneOf, Optional, Region, Root, Same, SeqOf, Spec, SymDict, _Scalar
 from .core import Explorer, Infeasible, Path, PathEnd, PyRaise
 from .interp import Interp, OldNS
 from .interp_call import Frame
@@ -118,10 +118,19 @@ def make_symbolic(I: Interp, spec, hint, root=None, env=None):
             if kind == "link":
                 path.assume(reach_definition(spec.name, f, arr))
         regions[id(spec)] = ref
+        path.ghost.setdefault("regions_by_name", {})[spec.name] = ref
         return ref
     if isinstance(spec, RegionList):
         from .values import RegionListCell
         return path.alloc(RegionListCell(make_symbolic(I, spec.region, hint, root, env)))
+    if isinstance(spec, ElemList):
+        from .values import ElemListCell
+        rref = make_symbolic(I, spec.region, hint, root, env)
+        keys = seqops.fresh(path, "list", "int", "in:" + hint + ".keys", register=False)
+        karr, kn, _ = seqops.as_array(keys)
+        q = z3.Int(path.fresh_name("kq"))
+        path.assume(z3.ForAll([q], z3.Implies(z3.And(q >= 0, q < kn), z3.And(z3.Select(karr, q) >= 0, z3.Select(karr, q) < path.cell(rref).n))))
+        return path.alloc(ElemListCell(rref, keys))
     if isinstance(spec, Elem):
         from .values import MapElem
         rref = make_symbolic(I, spec.region, hint, root, env)
